@@ -263,6 +263,8 @@ func init() {
 			{Scenario: "mux.wclose", Params: vx.P("writers", "2", "len", "5", "conns", "1"), Bound: b(2, 3), Weight: 8},
 			{Scenario: "mux.wclose", Params: vx.P("writers", "2", "len", "5", "conns", "2", "delay", "1"), Bound: b(2, 3), Weight: 6},
 			{Scenario: "mux.wclose", Params: vx.P("writers", "1", "len", "600", "conns", "2"), Bound: b(1, 2), Weight: 8},
+			// a Close (or a Write) that is the first operation to meet a connection fault: parked readers return
+			{Scenario: "mux.faultsend", Params: vx.P("conns", "2"), Bound: b(1, 2), Weight: 5},
 			{Scenario: "mux.stalledwriter", Params: vx.P("via", "write"), Bound: b(2, 3), Weight: 2},
 			{Scenario: "mux.stalledwriter", Params: vx.P("via", "readfrom"), Bound: b(2, 3), Weight: 2},
 			{Scenario: "mux.close", Params: vx.P("data", "300", "mode", "srvinit"), Bound: b(2, 3), Weight: 6},
